@@ -1,4 +1,5 @@
 """C15 Compress then expand restores shape, WCS and grid-node values (E1, bounded-exhaustive)."""
+import itertools
 import os
 
 import numpy as np
@@ -41,6 +42,8 @@ def cases(tier, seed):
     for sh in aux:
         yield "aegean_accepts", dict(shape=list(sh))
     yield "sr6_cli", dict()
+    for sh, grid, hk in itertools.product([(40, 37), (33, 48), (64, 64)], [(4, 4), (8, 5)], ["CDELT", "CD", "CDrot"]):
+        yield "bane_files", dict(shape=list(sh), grid=list(grid), hdr=hk)
     # histories: every ordered pair (A, B) of shapes of SEQ_SHAPES, per factor: expand A, expand B, expand A again in
     # one process (state carried between calls must not leak from one image into the next)
     for factor in (FACT_Q if tier == "quick" else FACT_T):
@@ -206,6 +209,54 @@ def ev_aegean_accepts(case, ctx):
             ctx.violation("compressed aux file loads with changed node values (%s)" % sig, "accept_nodes|" + sig)
 
 
+def ev_bane_files(case, ctx):
+    """the compressed background / noise files as BANE itself writes them (--compress): expanding them restores the image's
+    shape and WCS keywords, and Aegean accepts them"""
+    from AegeanTools import BANE
+    from AegeanTools.source_finder import SourceFinder
+    shape = tuple(case["shape"])
+    grid = tuple(case["grid"])
+    d = os.environ["VERIF_SCRATCH"]
+    sig = "bane_files:shape=%dx%d,grid=%dx%d,%s" % (shape + grid + (case["hdr"],))
+    ctx.count("bane_files")
+    ctx.nontrivial(sig)
+    rs = _rng(ctx.seed, "bane", shape)
+    img = (np.round(rs.normal(0, 1, size=shape) * 256) / 256 + 0.05 * np.arange(shape[0])[:, None]).astype(np.float32)
+    hl, hdr = _mkhdu(img, shape, dict(CDELT=False, CD=True, CDrot="rot")[case["hdr"]], ctx.seed)
+    f = os.path.join(d, "bf.fits")
+    ob = os.path.join(d, "bf_out")
+    hl.writeto(f, overwrite=True)
+    try:
+        BANE.filter_image(f, ob, step_size=grid, box_size=(grid[0] * 4, grid[1] * 4), cores=1, compressed=True)
+    except Exception as e:
+        ctx.violation("BANE with compressed output raised %r (%s)" % (e, sig), "bane_raise|" + sig)
+        return
+    keys = WCSKEYS_CDELT if case["hdr"] == "CDELT" else WCSKEYS_CD
+    sf = SourceFinder()
+    for sfx in ("bkg", "rms"):
+        fn = "%s_%s.fits" % (ob, sfx)
+        try:
+            ex = fits_tools.expand(fn)
+            odata = np.array(ex[0].data)
+            oh = dict(ex[0].header)
+            aux = sf._load_aux_image(img, fn)
+        except Exception as e:
+            ctx.violation("the %s file written by BANE --compress cannot be expanded / loaded: %r (%s)" % (sfx, e, sig), "bane_expand|%s,%s" % (sig, sfx))
+            continue
+        if odata.shape != shape or np.shape(aux) != shape:
+            ctx.violation("the %s file written by BANE --compress expands to %r / loads as %r, image %r (%s)" % (sfx, odata.shape, np.shape(aux), shape, sig),
+                          "bane_shape|%s,%s" % (sig, sfx))
+        for k in keys:
+            if k not in oh or abs(oh[k] - hdr[k]) > 1e-9 * max(1.0, abs(hdr[k])):
+                ctx.violation("the %s file written by BANE --compress: %s = %r after expanding, the image has %r (%s)" % (sfx, k, oh.get(k), hdr[k], sig),
+                              "bane_wcskey_%s|%s,%s" % (k, sig, sfx))
+        left = [k for k in oh if str(k).startswith("BN_")]
+        if left:
+            ctx.violation("compression keywords left after expanding BANE's %s file: %r (%s)" % (sfx, left, sig), "bane_bnkeys|%s,%s" % (sig, sfx))
+        os.remove(fn)
+    ctx.outcome("bane_files")
+
+
 def ev_sr6_cli(case, ctx):
     from AegeanTools.CLI import SR6
     d = os.environ["VERIF_SCRATCH"]
@@ -278,7 +329,7 @@ def ev_sequence(case, ctx):
             ctx.outcome("seq:ok" if all(ok) else "seq:bad")
 
 
-CLAUSES = dict(sequence=ev_sequence, roundtrip=ev_roundtrip, aegean_accepts=ev_aegean_accepts, sr6_cli=ev_sr6_cli)
+CLAUSES = dict(bane_files=ev_bane_files, sequence=ev_sequence, roundtrip=ev_roundtrip, aegean_accepts=ev_aegean_accepts, sr6_cli=ev_sr6_cli)
 
 
 def evaluate(clause, case, ctx):
